@@ -360,8 +360,48 @@ pub fn run(cfg: &RunCfg) -> Report {
     }
     if cfg.replay.is_none() {
         run_sets(&gen_sets(cfg), &mut rep);
+        run_named(&mut rep);
     }
     rep
+}
+
+/// the upper bound is the type's own named number, while a type that sorts before it gives the same name another
+/// (smaller) number: the width must follow the own number
+fn run_named(rep: &mut Report) {
+    let bs: Vec<i128> = boundary_set().into_iter().filter(|v| *v > 0).collect();
+    let mut body = String::from("Aaa-Decoy ::= INTEGER { top(7), low(1) }\nAab-Decoy ::= ENUMERATED { top(3), low(0) }\n");
+    for (k, v) in bs.iter().enumerate() {
+        body.push_str(&format!("Zz{k} ::= INTEGER {{ low(0), top({v}) }} (low..top)\n"));
+    }
+    let src = wrap(&[body]);
+    match compile_rasn(&[src.clone()]) {
+        Outcome::Ok { generated, .. } => {
+            let Ok(mods) = proj::project(&generated) else { return };
+            let Some(m) = mods.first() else { return };
+            let mut reqs = Vec::new();
+            let mut meta = Vec::new();
+            for (k, v) in bs.iter().enumerate() {
+                rep.evaluations += 1;
+                if let Some(ItemKind::Struct { fields, tuple: true }) = m.item(&format!("Zz{k}")).map(|i| &i.kind) {
+                    if fields.len() == 1 {
+                        rep.count("named-number-bound");
+                        reqs.push(format!("c06 assign ( ( range ( some 0 ) ( some {v} ) f ) ) {} none", fields[0].ty));
+                        meta.push((k, *v, fields[0].ty.clone()));
+                    }
+                }
+            }
+            if let Ok(ans) = run_driver(&reqs) {
+                for (a, (k, v, tok)) in ans.iter().zip(meta.iter()) {
+                    let parts: Vec<&str> = a.split(' ').collect();
+                    if parts.len() == 4 && parts[1] != "t" {
+                        rep.unsat("", parts[0] == tok, json!({"why": "token cannot hold the value of the type's own named number used as its upper bound", "case": {"ctx": "assign", "asn1": format!("Zz{k} ::= INTEGER {{ low(0), top({v}) }} (low..top)   -- next to Aaa-Decoy ::= INTEGER {{ top(7), low(1) }}"), "cons": [format!("( range ( some 0 ) ( some {v} ) f )")], "lit": null, "observed_token": tok}}));
+                    }
+                }
+            }
+        }
+        Outcome::Err(e) => rep.sample(json!({"compile_err": e, "family": "named-number-bound"})),
+        Outcome::Panic(p) => rep.harness_errors.push(format!("panic in the named-number family: {p}")),
+    }
 }
 
 /// a constraint list that contains set operators (`a..b | c..d`, `a..b ^ c..d`, optionally with a marker and a
@@ -406,10 +446,14 @@ fn gen_sets(cfg: &RunCfg) -> Vec<SetCase> {
         let el_asn = |e: &(Option<i128>, Option<i128>, bool)| if e.2 { e.0.unwrap().to_string() } else { format!("{}..{}", show(&e.0, true), show(&e.1, false)) };
         let el_sx = |e: &(Option<i128>, Option<i128>, bool)| if e.2 { format!("( single {} )", e.0.unwrap()) } else { format!("( range {} {} )", sx_opt(&e.0), sx_opt(&e.1)) };
         let op_txt = if union { [" | ", " UNION "][rng.below(2)] } else { [" ^ ", " INTERSECTION "][rng.below(2)] };
-        let mut text = format!("({}{})", elems.iter().map(el_asn).collect::<Vec<_>>().join(op_txt), if marker { ", ..." } else { "" });
+        // `((a) | (b), ...)`: operands in parentheses of their own, the marker then belongs to the element set
+        let paren = marker && rng.chance(1, 3) && elems.iter().all(|e| e.0.is_some() && e.1.is_some());
+        let wrap = |t: String| if paren { format!("({t})") } else { t };
+        let mut text = format!("({}{})", elems.iter().map(|e| wrap(el_asn(e))).collect::<Vec<_>>().join(op_txt), if marker { ", ..." } else { "" });
         let mut sx = vec![format!(
-            "( chain {} f f f {} {} )",
-            sx_bool(marker),
+            "( chain {} {} f f {} {} )",
+            sx_bool(marker && !paren),
+            sx_bool(paren),
             el_sx(&elems[0]),
             sx_list(elems[1..].iter().map(|e| format!("( {} {} )", if union { "union" } else { "inter" }, el_sx(e))))
         )];
